@@ -87,11 +87,15 @@ def split(predicate, pipeline):
         A higher order observable returning on observable for each split
         criteria.
     '''
-    _split, outer_obs = split_mux(predicate)
     pipeline = rx.pipe(*pipeline) if type(pipeline) is list else pipeline
 
-    return rx.pipe(
-        _split,
-        pipeline,
-        demux_mux_observable(outer_obs),
-    )
+    def _split_op(source):
+        # one outer observer per application of the operator
+        _split, outer_obs = split_mux(predicate)
+        return rx.pipe(
+            _split,
+            pipeline,
+            demux_mux_observable(outer_obs),
+        )(source)
+
+    return _split_op
